@@ -43,7 +43,8 @@ pub fn replay(a: &Args) {
             for e in evs {
                 *kinds.entry(e["kind"].as_str().unwrap_or("?").to_string()).or_default() += 1;
             }
-            let d = serialize(evs, ci);
+            // every fourth history is written with empty CDATA sections
+            let d = crate::xmlser::serialize_salted(evs, ci, if ci % 4 == 3 { 5 } else { 0 });
             let obs = observe(&d.bytes, &d.cfg);
             if norm_events(&obs.events) != norm_events(evs) {
                 ser_ok = false;
@@ -146,6 +147,7 @@ pub fn record_schema(a: &Args) {
     let sessions = a.num("n", 200) as usize;
     let max_elems = a.num("elems", 30) as usize;
     let damage_pct = a.num("damage", 8) as usize;
+    let boundary_only = a.num("boundary-only", 0) == 1;
     let mut o = Out::create(&a.req("out"));
     let mut renders = a.get("render-trace").map(|p| Out::create(&p));
     let mut calls = 0usize;
@@ -153,6 +155,13 @@ pub fn record_schema(a: &Args) {
     for s in 0..sessions {
         o.line(&json!({"ev": "Reset"}));
         let scaled = s % 6 == 5;
+        // every eighth session is built around a boundary size (deep chains, wide elements, long names, long runs)
+        let boundary: Option<Vec<Vec<u8>>> = if s % 8 == 7 || boundary_only {
+            let b = if boundary_only { s } else { s / 8 };
+            Some(boundary_session(&mut r, b, BOUNDARIES[(b / BOUNDARY_KINDS + b) % BOUNDARIES.len()]))
+        } else {
+            None
+        };
         let mut g = if scaled { GenCfg::scaled(&mut r) } else if s % 3 == 0 { GenCfg::rich() } else { GenCfg::plain() };
         g.pretty = s % 5 == 1;
         if !scaled {
@@ -166,18 +175,19 @@ pub fn record_schema(a: &Args) {
             g.names = pool;
         }
         let root = r.pick(&g.names).clone();
-        let ndocs = 1 + r.below(4);
+        let ndocs = match &boundary { Some(b) => b.len(), None => 1 + r.below(4) };
         let mut sess = Session::new();
         let mut session_docs: Vec<String> = Vec::new();
-        for _ in 0..ndocs {
-            let mut bytes = match r.below(20) {
-                0 => elementless(&mut r),
+        for di in 0..ndocs {
+            let mut bytes = match (&boundary, r.below(20)) {
+                (Some(b), _) => b[di].clone(),
+                (None, 0) => elementless(&mut r),
                 _ => {
                     let budget = if scaled { (3 * max_elems).max(g.max_kids + 10) } else { 1 + r.below(max_elems) };
                     document(&mut r, &g, &root, budget)
                 }
             };
-            if r.chance(damage_pct, 100) {
+            if boundary.is_none() && r.chance(damage_pct, 100) {
                 bytes = damage(&mut r, &bytes);
             }
             let cfg = ReaderCfg::default_cfg();
@@ -186,7 +196,7 @@ pub fn record_schema(a: &Args) {
             let out = sess.feed(&bytes, &cfg, 0);
             *outcomes.entry(out.st().to_string()).or_default() += 1;
             let result = match &out {
-                Outcome::Ok(v) => json!({"st": "ok", "proj": proj(v)}),
+                Outcome::Ok(v) => crate::proj::result_ok(v),
                 Outcome::Err { kind, position, debug, .. } => json!({"st": "err", "kind": kind, "position": position, "debug": debug}),
                 Outcome::Panic => json!({"st": "panic"}),
             };
@@ -227,7 +237,7 @@ pub fn docs_trace(a: &Args) {
         let obs = observe(&bytes, &cfg);
         let out = sess.feed(&bytes, &cfg, 0);
         let result = match &out {
-            Outcome::Ok(v) => json!({"st": "ok", "proj": proj(v)}),
+            Outcome::Ok(v) => crate::proj::result_ok(v),
             Outcome::Err { kind, position, debug, .. } => json!({"st": "err", "kind": kind, "position": position, "debug": debug}),
             Outcome::Panic => json!({"st": "panic"}),
         };
